@@ -18,7 +18,7 @@ import (
 func init() {
 	register("C14", PropCheck{
 		Title:      "Bytecode encoding and decoding are exact inverses",
-		Explain:    "Format agreement between the separate codecs, decided on finite tables: (R1) OpcodeString and OpcodeIndex are mutually inverse over all opcode constants, _MAX equals the largest opcode, and Vm.Run's switch, ParseAll's switch and WithDefaultHandlers cover the same twelve instructions; (R2) for each opcode the decoder's argument signature (sequence of length-prefixed symbols S, length-prefixed integers I and raw bytes B decoded on every success path of its Parse* function) equals the arity and kinds at every vm.NewLine call site with a constant opcode anywhere in the repository (library, assembler batch expansion, engine, examples, testdata) and the parameter list of the matching ParseHandler callback; (R3) primitive framing: the symbol and integer decoders' bounds arithmetic cannot wrap (every length the encoders can emit, including a 255-byte symbol, is decodable), the symbol encoder refuses more than 255 bytes, the integer encoder refuses more than 4 bytes and the integer decoder refuses a length byte above 4; (R4) the assembler's integer encoder emits a suffix of the 4-byte big-endian buffer and never right-trims it (low-order zero bytes are significant).",
+		Explain:    "Format agreement between the separate codecs, decided on finite tables: (R1) OpcodeString and OpcodeIndex are mutually inverse over all opcode constants, _MAX equals the largest opcode, and Vm.Run's switch, ParseAll's switch and WithDefaultHandlers cover the same twelve instructions; (R2) for each opcode the decoder's argument signature (sequence of length-prefixed symbols S, length-prefixed integers I and raw bytes B decoded on every success path of its Parse* function) equals the arity and kinds at every vm.NewLine call site with a constant opcode anywhere in the repository (library, assembler batch expansion, engine, examples, testdata) and the parameter list of the matching ParseHandler callback; (R3) primitive framing: the symbol and integer decoders' bounds arithmetic cannot wrap (every length the encoders can emit, including a 255-byte symbol, is decodable), the symbol encoder refuses more than 255 bytes, the integer encoder refuses more than 4 bytes and the integer decoder refuses a length byte above 4; the one-byte length written by the exported line builder vm.NewLine is reported where it is not proved to fit (NewLine cannot refuse: two known findings), and the assembler's batch (menu) processor, which expands through NewLine, compares every string argument it stores with 255 before keeping it; (R4) the assembler's integer encoder emits a suffix of the 4-byte big-endian buffer and never right-trims it (low-order zero bytes are significant).",
 		NotDecided: "equality of values after a round trip for all uint32 and all strings, the log2-based width computation for every value, 'consumes exactly its own bytes' beyond the signature agreement - these are value-level; no run-time enumeration is substituted.",
 		Run:        runC14,
 	})
@@ -364,6 +364,11 @@ func runC14(w *core.World, r *core.Report) {
 	limitCheck(asmWriter(w, "string"), "assembler symbol writer", 255, "symbol length")
 	limitCheck(asmWriter(w, "uint32"), "assembler integer writer", 4, "integer width")
 	limitCheck(primitiveDecoder(w, "I"), "integer decoder", 4, "integer length byte")
+	// the instruction line builder writes one length byte per string argument
+	if nl := anchor(w, r, "vm", "NewLine"); nl != nil {
+		checkNarrowing(w, r, "R3", []*ssa.Function{nl}, "the length byte no longer describes the string behind it: the line cannot be decoded (NewLine has no way to refuse; callers must)")
+	}
+	checkBatchArgLimits(w, r, "R3")
 
 	// ---- R4 -----------------------------------------------------------------------------------
 	checkNoRightTrim(w, r, "R4")
@@ -523,4 +528,134 @@ func checkNoRightTrim(w *core.World, r *core.Report, rule string) {
 		}
 	}
 	r.Floor(rule, "uses of the integer encoding buffer in package asm", n, 2)
+}
+
+// checkBatchArgLimits (C14 R3): the assembler's batch (menu) expansion builds its lines with
+// vm.NewLine, which cannot refuse a string longer than 255 bytes. Every string that the batch
+// processor stores for later expansion is therefore length-checked where it enters: in the function
+// that appends to the item list, every path to the append passes the 'within 255' edge of a
+// comparison of len(x) with the limit, where x ranges over the string parameters that are stored.
+func checkBatchArgLimits(w *core.World, r *core.Report, rule string) {
+	var adder *ssa.Function
+	var store *ssa.Store
+	for _, fn := range w.FuncsIn("asm") {
+		for _, in := range allInstrs(fn) {
+			if st, ok := in.(*ssa.Store); ok {
+				if tn, f, ok := core.FieldOfAddr(st.Addr); ok && f == "items" && strings.Contains(tn, "MenuProcessor") {
+					adder, store = fn, st
+				}
+			}
+		}
+	}
+	if adder == nil {
+		r.Undecided(rule, "assembler batch processor: item store", token.NoPos, "no function of package asm stores to MenuProcessor.items")
+		return
+	}
+	r.Touch(core.QName(adder))
+	// string parameters that reach the stored item
+	var strParams []*ssa.Parameter
+	for _, p := range adder.Params {
+		if p.Type().String() == "string" {
+			strParams = append(strParams, p)
+		}
+	}
+	covered := map[ssa.Value]bool{}
+	cut := core.NewCut()
+	var cmpBlocks []*ssa.BasicBlock
+	for _, in := range allInstrs(adder) {
+		bo, ok := in.(*ssa.BinOp)
+		if !ok {
+			continue
+		}
+		x, op, c, ok := core.CmpConst(bo)
+		if !ok {
+			continue
+		}
+		var within []core.Edge
+		switch {
+		case op == token.GTR && c == 255, op == token.GEQ && c == 256:
+			within = core.EdgesWhere(bo, false)
+		case op == token.LEQ && c == 255, op == token.LSS && c == 256:
+			within = core.EdgesWhere(bo, true)
+		default:
+			continue
+		}
+		lc, isCall := core.Strip(x).(*ssa.Call)
+		if !isCall || !core.IsCallTo(lc, "builtin.len") {
+			continue
+		}
+		roots, _ := core.DeepSources(lc.Call.Args[0], nil)
+		for _, rt := range roots {
+			covered[rt] = true
+		}
+		cut.AddEdge(within...)
+		cmpBlocks = append(cmpBlocks, bo.Block())
+	}
+	bad := ""
+	for _, p := range strParams {
+		// only parameters that are stored matter: the batch keyword is looked up, not stored
+		stored := false
+		roots, _ := core.DeepSources(store.Val, nil)
+		for _, rt := range roots {
+			if rt == ssa.Value(p) {
+				stored = true
+			}
+		}
+		if stored && !covered[p] {
+			bad = fmt.Sprintf("parameter %s is stored for expansion without a length test against 255", p.Name())
+		}
+	}
+	if bad == "" {
+		if len(cut.Edges) == 0 {
+			bad = "no comparison with the limit"
+		} else if ok, path := core.MustPass(store, cut); !ok {
+			// a loop over the literal list of arguments: the header dominates the store and no
+			// iteration gets back to the header without passing a 'within' edge
+			okLoop := false
+			for _, cb := range cmpBlocks {
+				for h := cb; h != nil; h = h.Idom() {
+					if h == cb || !h.Dominates(store.Block()) || !blockReaches(cb, h) {
+						continue
+					}
+					loopOK := true
+					for _, sc := range h.Succs {
+						if !blockReaches(sc, h) {
+							continue // exit edge
+						}
+						if hit, _ := core.Reach(core.Point{B: sc, I: 0}, func(in ssa.Instruction) bool { return in == h.Instrs[0] }, cut); hit != nil {
+							loopOK = false
+						}
+					}
+					if loopOK {
+						okLoop = true
+					}
+					break
+				}
+			}
+			if !okLoop {
+				bad = "the item is stored on a path that never passes a 'within 255 bytes' edge: " + w.PathString(path)
+			}
+		}
+	}
+	r.Check(bad == "", rule, "assembler batch processor: arguments within the one-byte length limit", adder.Pos(), "every stored string argument is compared with 255 before it is kept",
+		"a menu title, selector or target longer than 255 bytes is expanded with vm.NewLine into a line whose length byte wraps: the emitted bytecode does not decode to what was written: "+bad)
+}
+
+// blockReaches: b can reach t along CFG edges (b != t counts only through at least one edge).
+func blockReaches(b, t *ssa.BasicBlock) bool {
+	seen := map[*ssa.BasicBlock]bool{}
+	stack := append([]*ssa.BasicBlock{}, b.Succs...)
+	for len(stack) > 0 {
+		x := stack[len(stack)-1]
+		stack = stack[:len(stack)-1]
+		if x == t {
+			return true
+		}
+		if seen[x] {
+			continue
+		}
+		seen[x] = true
+		stack = append(stack, x.Succs...)
+	}
+	return false
 }
